@@ -609,12 +609,7 @@ impl PathIssueManager {
         // Broadcast issue
         self.issue_broadcast_tx.send((id, marker.clone())).ok();
 
-        if self.cache.contains_key(&id) {
-            // Re-reported issue: it replaces its cache entry, so its old FIFO entry has to go as
-            // well. Otherwise the stale entry makes a later `pop_front` evict nothing and the
-            // FIFO grows with every repetition of the issue.
-            self.fifo_issues.retain(|(queued_id, _)| *queued_id != id);
-        } else if self.cache.len() >= self.max_entries {
+        if self.cache.len() >= self.max_entries {
             self.pop_front();
         }
 
@@ -645,23 +640,26 @@ impl PathIssueManager {
     }
 
     /// Pops the oldest issue from the cache.
+    ///
+    /// An issue that was reported again after the deduplication window leaves its older FIFO
+    /// entries behind (their timestamps no longer match the cached marker). Those stale entries
+    /// are skipped, so that an eviction always frees a cache slot if there is anything to evict.
     fn pop_front(&mut self) -> Option<IssueMarker> {
-        let (issue_id, timestamp) = self.fifo_issues.pop_front()?;
-
-        match self.cache.entry(issue_id) {
-            hash_map::Entry::Occupied(occupied_entry) => {
-                // Only remove if timestamps match
-                if occupied_entry.get().timestamp == timestamp {
-                    Some(occupied_entry.remove())
-                } else {
-                    None
+        while let Some((issue_id, timestamp)) = self.fifo_issues.pop_front() {
+            match self.cache.entry(issue_id) {
+                hash_map::Entry::Occupied(occupied_entry) => {
+                    // Only remove if timestamps match
+                    if occupied_entry.get().timestamp == timestamp {
+                        return Some(occupied_entry.remove());
+                    }
+                }
+                hash_map::Entry::Vacant(_) => {
+                    debug_assert!(false, "Bad cache: issue ID not found in cache");
                 }
             }
-            hash_map::Entry::Vacant(_) => {
-                debug_assert!(false, "Bad cache: issue ID not found in cache");
-                None
-            }
         }
+
+        None
     }
 }
 
